@@ -28,7 +28,7 @@ def std_configs(rng, tier, chans=(None, 0, 1, 2, 7), slf=True, families=False, n
     return cs
 
 
-def run_runtime(rep, pid, premise, theorem_apps, configs, search=None, search_what="", extra_funs=(), per_model_check=None, imports="", dfs=None):
+def run_runtime(rep, pid, premise, theorem_apps, configs, search=None, search_what="", extra_funs=(), per_model_check=None, imports="", dfs=None, dfs_when=None):
     """returns (owners, results) for further property-specific checks"""
     nthm, problems, _ = property_theorems(pid)
     rep.checker_cmds.append("make -C coq theories/Properties/%s.vo (Print Assumptions must be closed)" % pid)
@@ -68,12 +68,12 @@ def run_runtime(rep, pid, premise, theorem_apps, configs, search=None, search_wh
     good = []
     # bounded depth-first search over schedules for the instances whose premise fails (model-side failing-input search)
     dfs_res = {}
-    failing = [k for k, r in enumerate(res) if r["wf"] != "true"][:24]
+    failing = [k for k, r in enumerate(res) if r["wf"] != "true" or (dfs_when is not None and dfs_when(r))][:24]
     if dfs and failing:
         bad, boom = dfs
         try:
             dfs_res = inst.coq_values("%s_dfs" % pid, inst.HEADER + "From IT Require Import Runtime.Explore.\nFrom ITG Require Import %s." % mod,
-                                      [("d%d" % k, "map (fun k => (k, search (elab inst_%d) %s k %s 9)) (firstn 3 (messaging (elab inst_%d)))" % (k, bad, boom, k)) for k in failing], timeout=300)
+                                      [("d%d" % k, "map (fun k => (k, search (elab inst_%d) %s k %s 9)) (firstn 3 (messaging (elab inst_%d)))" % (k, bad.replace("{m}", "(elab inst_%d)" % k), boom, k)) for k in failing], timeout=300)
         except Infra:
             dfs_res = {}
     for k, ((c, j), r) in enumerate(zip(owners, res)):
